@@ -195,6 +195,9 @@ func (p pathInfo) note(s string) pathInfo {
 
 const maxPathCalls = 6
 
+// maxConcreteList: lists up to this length keep one abstract cell per element
+const maxConcreteList = 6
+
 func (p pathInfo) with(c hcall) pathInfo {
 	if len(p.calls) >= maxPathCalls {
 		// saturate: keeps the configuration space finite inside loops
@@ -263,6 +266,7 @@ type Exec struct {
 	caller AV
 	traceReturns bool
 	cli    bool // interpreting cmd/jpgo: library calls are modelled, not inlined
+	ord    func(a, b prov) (int, bool) // order hypothesis on tagged numbers/strings (rule K-ORDER): -1, 0, +1
 	cliGlobals map[string]string // package-level variables of the command initialised to os.Stdout / os.Stderr / os.Stdin
 }
 
@@ -1013,6 +1017,12 @@ func (x *Exec) simple(in ssa.Instruction, fr *frame, h *Heap) bool {
 		switch {
 		case lv.nk && lv.n == 0:
 			o.exact = true
+		case lv.nk && lv.n >= 1 && lv.n <= maxConcreteList:
+			// a small slice of known length: one cell per element
+			o.kind = 'l'
+			for k := int64(0); k < lv.n; k++ {
+				o.elems = append(o.elems, z)
+			}
 		case lv.nk:
 			o.minLen = int(lv.n)
 			o.exact = true
